@@ -340,7 +340,7 @@ class Topology(System):
             additional_interactions = defaultdict(list)
             for inter_type, interactions in block.interactions.items():
                 # these interactions have no types associated
-                if inter_type in ["pairs", "exclusions", "virtual_sitesn",
+                if inter_type in ["exclusions", "virtual_sitesn",
                                   "virtual_sites2", "virtual_sites3", "virtual_sites4"]:
                     continue
 
@@ -362,6 +362,9 @@ class Topology(System):
                             new_params = self.types[inter_type][atoms]
                         elif atoms[::-1] in self.types[inter_type]:
                             new_params  = self.types[inter_type][atoms[::-1]]
+                        # a pair without a pair type is generated by grompp (gen-pairs): left as written
+                        elif inter_type == "pairs":
+                            continue
                         # dihedrals are more complicated because they are treated as symmetric and
                         # can have wild-cards
                         elif inter_type in "dihedrals":
